@@ -21,9 +21,10 @@ static FUEL: AtomicU32 = AtomicU32::new(0);
 static FIRED: AtomicU32 = AtomicU32::new(0);
 fn tick() { if FUEL.fetch_add(1, Ordering::Relaxed) > 1000 { panic!("WATCHDOG") } }
 fn fired() { FIRED.store(1, Ordering::Relaxed); }
-fn attempt() -> Option<[String; %(n)d]> {
+#[derive(Debug)] struct Z;
+fn attempt() -> Option<[%(ty)s; %(n)d]> {
     'outer: loop {
-        let a: [String; %(n)d] = %(invocation)s;
+        let a: [%(ty)s; %(n)d] = %(invocation)s;
         return Some(a);
     }
     None
@@ -53,21 +54,21 @@ EXITS = {
 }
 
 
-def invocation(macro, n, pos, exit_stmt):
-    body = "tick(); if %s == %d { fired(); %s } %s.to_string()"
+def invocation(macro, n, pos, exit_stmt, ty="String"):
+    body = "tick(); if %s == %d { fired(); %s } %s.to_string()" if ty == "String" else "tick(); if %s == %d { fired(); %s } { let _ = %s; Z }"
     arr = "[%s]" % ", ".join("%du32" % i for i in range(n))
     if macro == "map!":
         return "konst::array::map!(%s, |x| { %s })" % (arr, body % ("x", pos, exit_stmt, "x"))
     if macro == "map_!":
         return "konst::array::map_!(%s, |x| { %s })" % (arr, body % ("x", pos, exit_stmt, "x"))
     if macro == "map!(-> ret)":
-        return "konst::array::map!(%s, |x| -> String { %s })" % (arr, body % ("x", pos, exit_stmt, "x"))
+        return "konst::array::map!(%s, |x| -> %s { %s })" % (arr, ty, body % ("x", pos, exit_stmt, "x"))
     if macro == "from_fn!":
         return "konst::array::from_fn!(|i| { %s })" % (body % ("i", pos, exit_stmt, "i"))
     if macro == "from_fn_!":
         return "konst::array::from_fn_!(|i| { %s })" % (body % ("i", pos, exit_stmt, "i"))
     if macro == "from_fn_!(typed)":
-        return "konst::array::from_fn_!([String; %d] => |i: usize| -> String { %s })" % (n, body % ("i", pos, exit_stmt, "i"))
+        return "konst::array::from_fn_!([%s; %d] => |i: usize| -> %s { %s })" % (ty, n, ty, body % ("i", pos, exit_stmt, "i"))
     raise ValueError(macro)
 
 
@@ -98,7 +99,10 @@ def run(out, tier, seed):
     for macro in ("map!", "map_!", "map!(-> ret)", "from_fn!", "from_fn_!", "from_fn_!(typed)"):
         for ename, estmt in EXITS.items():
             for (n, pos) in ((3, 0), (3, 1), (3, 2), (1, 0), (2, 1)):
-                progs.append((macro, ename, n, pos, TEMPLATE % {"n": n, "invocation": invocation(macro, n, pos, estmt)}))
+                progs.append((macro, ename, n, pos, TEMPLATE % {"n": n, "ty": "String", "invocation": invocation(macro, n, pos, estmt)}))
+            # zero-sized element type: no storage is written, only the element counter guards the array
+            for (n, pos) in ((3, 0), (3, 2), (1, 0)):
+                progs.append((macro + "[ZST]", ename, n, pos, TEMPLATE % {"n": n, "ty": "Z", "invocation": invocation(macro, n, pos, estmt, "Z")}))
     ccs = []
     for adapter in ("map", "filter", "filter_map", "take_while", "flat_map"):
         for ename in ("break", "continue", "panic"):
@@ -141,6 +145,9 @@ def run(out, tier, seed):
             nontrivial += 1
             if len(samples) < 6 and i % 29 == 0:
                 samples.append("%s with `%s` at element %d of %d -> %s" % (macro, EXITS[ename], pos, n, cls))
+            if cls == "array-exit-not-reached":
+                out.fail("C11:array-returned-without-running-the-closure:%s" % macro, macro, "%s, N=%d, exit planted at element %d (%s)" % (macro, n, pos, srcs[i]), "the macro yielded an array although the closure was never run on element %d" % pos,
+                         "the closure runs on every element before an array exists", "generated-program", cmd=b, source=srcs[i])
             if cls == "array":
                 out.fail("C11:array-returned-after-early-exit:%s:%s" % (macro, ename), macro, "%s, N=%d, `%s` at element %d (%s)" % (macro, n, EXITS[ename], pos, srcs[i]), "the macro yielded an array although the closure left early at element %d" % pos,
                          "loop, panic, compile error or non-local exit", "generated-program", cmd=b, source=srcs[i])
